@@ -1,6 +1,7 @@
 package rules
 
 import (
+	"go/token"
 	"go/types"
 
 	"golang.org/x/tools/go/ssa"
@@ -458,6 +459,7 @@ func checkFieldWriters(c *core.Ctx, rule, pkg, typ, field string, allowed map[st
 		return
 	}
 	writers := map[string]string{}
+	writerFn := map[string]*ssa.Function{}
 	for _, pk := range c.P.Mod {
 		if pk.SSA == nil {
 			continue
@@ -479,6 +481,7 @@ func checkFieldWriters(c *core.Ctx, rule, pkg, typ, field string, allowed map[st
 								continue
 							}
 							writers[ir.FuncName(f)] = c.P.Rel(s.Pos())
+							writerFn[ir.FuncName(f)] = f
 						}
 					}
 				}
@@ -487,9 +490,23 @@ func checkFieldWriters(c *core.Ctx, rule, pkg, typ, field string, allowed map[st
 	}
 	bad := []string{}
 	for w, pos := range writers {
-		if !allowed[w] {
-			bad = append(bad, w+"@"+pos)
+		if allowed[w] {
+			continue
 		}
+		// a private helper split from an owner: every effective user must be an owner
+		if f := writerFn[w]; f != nil && f.Parent() == nil && !token.IsExported(f.Name()) {
+			users := c.P.EffectiveCallers(f, func(y *ssa.Function) bool { return allowed[ir.FuncName(y)] })
+			okAll := len(users) > 0
+			for _, u := range users {
+				if !allowed[ir.FuncName(u)] {
+					okAll = false
+				}
+			}
+			if okAll {
+				continue
+			}
+		}
+		bad = append(bad, w+"@"+pos)
 	}
 	c.Decide(len(bad) == 0, rule, pkg+"."+typ, "field "+field+" written only by the frozen owners", "", sprintf("writers %v; not allowed: %v", ir.SortedKeys(writers), bad))
 }
